@@ -80,7 +80,38 @@ func (c *Ctx) RuleNarrow() *Result {
 			res.Instances++
 			key := fmt.Sprintf("%s:%s(%s)", load.FnName(fn), cv.Type().String(), cv.X.Type().String())
 			pos := c.P.InstrPos(cv)
-			call, isParse := parseCallOf(cv.X)
+			// a range check on every path: comparisons of the value with constants that leave only values the
+			// target type holds
+			if c.rangeChecked(cv, cv.X, ss, db, ds) {
+				res.ok(key, pos, "every path to the conversion passes comparisons with constants that leave only values of the target's range")
+				return
+			}
+			// zero when there is nothing to parse, the parsed number otherwise
+			site := ssa.Instruction(cv)
+			operand := cv.X
+			if ph, isPhi := cv.X.(*ssa.Phi); isPhi {
+				var parsed ssa.Value
+				okPhi := true
+				for i, e := range ph.Edges {
+					if k, isC := e.(*ssa.Const); isC {
+						if kv, ok := constInt(k); !ok || kv < 0 || (db < 63 && kv >= int64(1)<<uint(db)) {
+							okPhi = false
+						}
+						continue
+					}
+					if _, isParse := parseCallOf(e); !isParse || parsed != nil {
+						okPhi = false
+						continue
+					}
+					parsed = e
+					pred := ph.Block().Preds[i]
+					site = pred.Instrs[len(pred.Instrs)-1]
+				}
+				if okPhi && parsed != nil {
+					operand = parsed
+				}
+			}
+			call, isParse := parseCallOf(operand)
 			if !isParse {
 				res.bad(key, pos, fmt.Sprintf("%s is narrowed to %s without a range check: values outside the target range wrap around", cv.X.Type(), cv.Type()))
 				return
@@ -118,7 +149,23 @@ func (c *Ctx) RuleNarrow() *Result {
 				}
 				return false
 			}
-			if errV == nil || !c.guardedByEdges(cv, pred) {
+			edgeOK := false
+			if iff, isIf := site.(*ssa.If); isIf && site != ssa.Instruction(cv) {
+				// the value arrives over the edge of this very test
+				cond, neg := unwrapNot(iff.Cond)
+				for si, sc := range iff.Block().Succs {
+					if ph, isPhi := cv.X.(*ssa.Phi); isPhi && sc == ph.Block() {
+						val := si == 0
+						if neg {
+							val = !val
+						}
+						if pred(cond, val) {
+							edgeOK = true
+						}
+					}
+				}
+			}
+			if errV == nil || (!edgeOK && !c.guardedByEdges(site, pred)) {
 				problems = append(problems, "the conversion can be reached although parsing failed (the parse error is not tested before the value is used)")
 			}
 			if v, ok := c.ErrVerdicts()[call]; ok && v.Verdict == Violated {
@@ -132,6 +179,89 @@ func (c *Ctx) RuleNarrow() *Result {
 		})
 	}
 	return res
+}
+
+// rangeChecked: every path to site passes edges that bound v from below by 0 (or v is unsigned, or a rune
+// taken from a range over a string) and from above by the largest value of a target of db bits.
+func (c *Ctx) rangeChecked(site ssa.Instruction, v ssa.Value, srcSigned bool, db int, dstSigned bool) bool {
+	max := int64(1)<<uint(db) - 1
+	if dstSigned {
+		max = int64(1)<<uint(db-1) - 1
+	}
+	if db >= 63 {
+		return false
+	}
+	cmpWith := func(cond ssa.Value) (token.Token, int64, bool) {
+		b, ok := cond.(*ssa.BinOp)
+		if !ok {
+			return 0, 0, false
+		}
+		if b.X == v {
+			if k, ok := constInt(b.Y); ok {
+				return b.Op, k, true
+			}
+		}
+		if b.Y == v {
+			if k, ok := constInt(b.X); ok {
+				// k OP v  ==  v OP' k
+				switch b.Op {
+				case token.LSS:
+					return token.GTR, k, true
+				case token.LEQ:
+					return token.GEQ, k, true
+				case token.GTR:
+					return token.LSS, k, true
+				case token.GEQ:
+					return token.LEQ, k, true
+				}
+			}
+		}
+		return 0, 0, false
+	}
+	upper := func(cond ssa.Value, val bool) bool {
+		op, k, ok := cmpWith(cond)
+		if !ok {
+			return false
+		}
+		switch op {
+		case token.LSS:
+			return val && k-1 <= max
+		case token.LEQ:
+			return val && k <= max
+		case token.GTR:
+			return !val && k <= max
+		case token.GEQ:
+			return !val && k-1 <= max
+		}
+		return false
+	}
+	lower := func(cond ssa.Value, val bool) bool {
+		op, k, ok := cmpWith(cond)
+		if !ok {
+			return false
+		}
+		switch op {
+		case token.LSS:
+			return !val && k >= 0
+		case token.LEQ:
+			return !val && k >= -1
+		case token.GTR:
+			return val && k >= -1
+		case token.GEQ:
+			return val && k >= 0
+		}
+		return false
+	}
+	nonNegative := !srcSigned
+	if ex, ok := v.(*ssa.Extract); ok && ex.Index == 2 {
+		if nx, ok := ex.Tuple.(*ssa.Next); ok && nx.IsString {
+			nonNegative = true // the rune of a range over a string
+		}
+	}
+	if !c.guardedByEdges(site, upper) {
+		return false
+	}
+	return nonNegative || c.guardedByEdges(site, lower)
 }
 
 // ---------- SIBLING ----------
